@@ -556,7 +556,7 @@ def rand_hybrid(rng, small=False):
 NEG_OK = {"Rgate": 1, "Sgate": 2, "Dgate": 2, "Xgate": 1, "Zgate": 1, "Pgate": 1, "BSgate": 2, "S2gate": 2, "CXgate": 1, "CZgate": 1}
 
 
-def cancelling_block(rng, free):
+def cancelling_block(rng, free, displaced=False):
     """Gaussian commands (>= 2) that compose exactly to the identity: G(a); G(-a) / G; G.H (one shared instance and
     its .H) / Fourier pairs / nested G1; G2; G2.H; G1.H, on one or two modes of `free`"""
     def gate():
@@ -570,6 +570,23 @@ def cancelling_block(rng, free):
     g = gate()
     inv = lambda o: dict(copy.deepcopy(o), dagger=not o["dagger"])
     u = rng.random()
+    if displaced:
+        # the symplectic part cancels, displacements remain (on every mode of the block, or on some of them):
+        # G; D..; G.H  /  G1; G2; D..; G2.H; G1.H  -- GaussianUnitary then returns Dgates only
+        while g["cls"] in ("Dgate", "Xgate", "Zgate"):
+            g = gate()
+        modes = sorted({m for m in g["regs"]} | (set(free) if rng.random() < 0.5 else set()))
+        keep = [m for m in modes if rng.random() < 0.85] or modes[:1]
+        rng.shuffle(keep)
+        ds = [dict(cls=rng.choice(["Dgate", "Dgate", "Xgate", "Zgate"]), regs=[m], pars=None, dagger=rng.random() < 0.2) for m in keep]
+        for d in ds:
+            d["pars"] = [round(rng.uniform(0.1, 0.4), 3), sim.angle(rng)] if d["cls"] == "Dgate" else [round(rng.uniform(0.1, 0.5) * rng.choice([-1, 1]), 3)]
+        if u < 0.75:
+            return [g] + ds + [inv(g)]
+        g2 = gate()
+        while g2["cls"] in ("Dgate", "Xgate", "Zgate"):
+            g2 = gate()
+        return [g, g2] + ds + [inv(g2), inv(g)]
     if u < 0.35 and g["cls"] in NEG_OK:
         h = copy.deepcopy(g)
         h["pars"][0] = -h["pars"][0]
@@ -610,9 +627,17 @@ def rand_cancelling_hybrid(rng, small=False):
         ops.append(dict(cls="CKgate", regs=rng.choice([[a, b], [b, a]]), pars=[round(rng.uniform(0.2, 0.7), 3)], dagger=False))
     else:
         ops.append(ng1(b))
-    block = cancelling_block(rng, [b] + ([rng.choice(others)] if rng.random() < 0.5 else []))
+    displaced = rng.random() < 0.5
+    bm = [b] + ([rng.choice(others)] if rng.random() < (0.75 if displaced else 0.5) else [])
+    if displaced:
+        # unmerged operations, themselves with predecessors, on the other mode(s) of the block as well
+        for c in bm[1:]:
+            if rng.random() < 0.8:
+                ops.append(dict(cls="Sgate", regs=[c], pars=[round(rng.uniform(0.1, 0.3), 3), sim.angle(rng)], dagger=False))
+                ops.append(ng1(c))
+    block = cancelling_block(rng, bm, displaced)
     if not any(b in o["regs"] for o in block):
-        block = cancelling_block(rng, [b])
+        block = cancelling_block(rng, [b], displaced)
     for o in block:
         ops.append(o)
         if rng.random() < 0.15:                  # an independent command written in between
@@ -662,9 +687,14 @@ def check_merge(ctx, spec, reqs, pending, fock=False):
             calls.append((list(seq), list(out)))
             return out
 
+    class NoTermination(Exception):
+        pass
+
     class RecMerge(gm.GaussianMerge):
         def merge_a_gaussian_op(self, registers):
             before = list(self.curr_seq)
+            if len(steps) > 30 * (len(before) + 5):      # every merge removes >= 1 command: far beyond any terminating run
+                raise NoTermination()
             n0 = len(calls)
             r = super().merge_a_gaussian_op(registers)
             dag = getattr(self, "new_DAG", None) if r else None
@@ -681,6 +711,12 @@ def check_merge(ctx, spec, reqs, pending, fock=False):
     except circuit_error():
         ctx.tally("gaussian_merge:CircuitError")
         source_untouched(ctx, snap, prog, "gaussian_merge", rp)
+        return
+    except NoTermination:
+        last = steps[-1]
+        ctx.fail("merge:does-not-terminate",
+                 f"compile(compiler='gaussian_merge') keeps merging without end: {len(steps)} merge steps on a circuit of "
+                 f"{len(steps[0][0])} commands; the last step turned {[str(c)[:40] for c in last[0]][:8]} into {[str(c)[:40] for c in last[1]][:8]}", rp)
         return
     except Exception as e:  # noqa: BLE001
         ctx.fail(f"merge:raises:{type(e).__name__}",
@@ -727,6 +763,8 @@ def check_merge(ctx, spec, reqs, pending, fock=False):
         members, emitted = cl[-1]      # earlier calls belong to candidate merges that were skipped
         if not emitted:
             ctx.tally("merge:cancelled-block-steps")
+        elif len(emitted) >= 2 and all(c.op.__class__.__name__ == "Dgate" for c in emitted):
+            ctx.tally("merge:displacements-only-steps(>=2 modes)")
         b_ids, a_ids = [cid(c) for c in before], [cid(c) for c in after]
         m_ids = [i for i in b_ids if i in {cid(c) for c in members}]
         e_ids = [i for i in a_ids if i in {cid(c) for c in emitted}]
